@@ -17,13 +17,13 @@ def _run_shard(binp, harness_prop, driver, tier, seed, outdir, run_driver, extra
     mism = []
     n = 0
     with open(os.path.join(outdir, "ops.txt")) as fo, open(os.path.join(outdir, "impl.txt")) as fi, \
-            open(os.path.join(outdir, "model.txt")) as fm:
-        for op, a, b in zip(fo, fi, fm):
+            open(os.path.join(outdir, "model.txt")) as fm, open(os.path.join(outdir, "cats.txt")) as fc:
+        for op, a, b, cat in zip(fo, fi, fm, fc):
             n += 1
-            a, b, op = a.rstrip("\n"), b.rstrip("\n"), op.rstrip("\n")
+            a, b, op, cat = a.rstrip("\n"), b.rstrip("\n"), op.rstrip("\n"), cat.rstrip("\n")
             if a != b:
                 if len(mism) < 200:
-                    mism.append({"line": n, "op": op[:4000], "impl": a[:2000], "model": b[:2000], "seed": seed})
+                    mism.append({"line": n, "cat": cat, "op": op[:4000], "impl": a[:2000], "model": b[:2000], "seed": seed})
                 else:
                     mism.append(None)
     # line-count sanity: all three files must have the same number of lines
@@ -55,7 +55,7 @@ def correspond(cfg, pid, binp, tier, seed, scratch, run_driver, obligation_broke
         for m in r["mism"]:
             if m is None:
                 continue
-            m["key"] = cfg.get("classify", lambda m: m["op"].split(" ")[0])(m)
+            m["key"] = cfg.get("classify", lambda m: m.get("cat", ""))(m)
             mism.append(m)
         st = r["stats"]
         agg["evaluations"] += st["evaluations"]
@@ -82,6 +82,20 @@ COMMON_TB = [
 ]
 
 PROPS = {
+    "C15": {
+        "harness": "c15", "driver": "c15",
+        "lean_modules": ["BleveModel.Props.C15"],
+        "rule": ("seeded operation sequences (batches of set/delete/merge with the append merge operator, readers opened at "
+                 "random points and read after later writes, get, multi-get, prefix and range iterators with seek/next) over "
+                 "keys from {00,'a','b',ff}^1..4 incl. empty values, run against boltdb, goleveldb, gtreap, moss and the metrics "
+                 "wrapper obtained through the registry; every answer compared with the Lean ordered-map model. non-trivial = "
+                 "all reads and non-empty batches; distinct by op line"),
+        "trusted_base": COMMON_TB + ["the engines under the adapters: bbolt, goleveldb, gtreap, moss"],
+        "assumptions": ["a batch never mixes a merge with a set/delete of the same key (stores order them differently; upsidedown never does it)",
+                        "Next is called only on a valid iterator", LEVEL_NOTE],
+        "floors": {"moss/piter": 10, "boltdb/get": 10, "goleveldb/seek": 5, "gtreap/mget": 5},
+        "thorough_shards": 8,
+    },
     "C06": {
         "harness": "c06", "driver": "c06",
         "lean_modules": ["BleveModel.Props.C06"],
